@@ -123,6 +123,16 @@ Theorem C11_par_pure_order : forall (T St : Type) (solve : T -> option St -> opt
 Proof. exact par_pure_order. Qed.
 Print Assumptions C11_par_pure_order.
 
+(** the point solver is option-valued: temperatures where it FAILS are skipped by both variants, and the
+    result is exactly the solutions of the temperatures that have one, in grid order, then the critical point *)
+Theorem C11_par_pure_skips_failures : forall (T St : Type) (solve : T -> option St -> option St),
+  guess_independent T St solve ->
+  forall (k : nat) (ts : list T) (crit : St), 1 <= k ->
+  par_pure T St solve k ts crit =
+  flat_map (fun t => match solve t None with Some s => [s] | None => [] end) ts ++ [crit].
+Proof. exact par_pure_skips_failures. Qed.
+Print Assumptions C11_par_pure_skips_failures.
+
 (** with a single chunk no hypothesis on the solver is needed *)
 Theorem C11_par_pure_single_chunk : forall (T St : Type) (solve : T -> option St -> option St)
   (k : nat) (ts : list T) (crit : St), 1 <= k -> length ts <= k ->
